@@ -3,17 +3,17 @@
 # Confirms a seeded change: compiles, existing tests pass with it, demo fails with it and passes without;
 # then stores it under /verif/seeded/<seed-name>/ .
 set -u
-ID=$1; WT=$2; NAME=$3
+ID=$1; WT=$2; NAME=$3; MUT=${4:-MUTATION}
 cd $WT || exit 2
-DEMO_DST=$(head -1 MUTATION/demo_test.go | grep -o 'internal/[^ ]*_test.go' | head -1)
+DEMO_DST=$(head -1 $MUT/demo_test.go | grep -o 'internal/[^ ]*_test.go' | head -1)
 [ -z "$DEMO_DST" ] && DEMO_DST=$(git status --short | grep '^??' | grep _test.go | awk '{print $2}' | head -1)
 echo "demo at: $DEMO_DST"
 PKG=./$(dirname $DEMO_DST)
 git checkout -q -- . 
-cp MUTATION/demo_test.go $DEMO_DST
+cp $MUT/demo_test.go $DEMO_DST
 echo "== without change: demo must pass"
 go test -mod=mod -vet=off -count=1 $PKG > /tmp/vs_$ID.1 2>&1; R1=$?
-git apply MUTATION/patch.diff || { echo "patch does not apply"; exit 2; }
+git apply $MUT/patch.diff || { echo "patch does not apply"; exit 2; }
 echo "== with change: build"
 go build ./... > /tmp/vs_$ID.2 2>&1; R2=$?
 echo "== with change: existing tests (demo moved aside)"
@@ -25,7 +25,7 @@ timeout 300 go test -mod=mod -vet=off -count=1 $PKG > /tmp/vs_$ID.4 2>&1; R4=$?
 echo "without:demo=$R1 build=$R2 tests=$R3 with:demo=$R4"
 if [ $R1 -eq 0 ] && [ $R2 -eq 0 ] && [ $R3 -eq 0 ] && [ $R4 -ne 0 ]; then
   D=/verif/seeded/$NAME; mkdir -p $D
-  cp MUTATION/patch.diff $D/patch.diff; cp MUTATION/demo_test.go $D/demo_test.go; cp MUTATION/README.md $D/README.agent.md
+  cp $MUT/patch.diff $D/patch.diff; cp $MUT/demo_test.go $D/demo_test.go; cp $MUT/README.md $D/README.agent.md
   echo "CONFIRMED -> $D"
 else
   echo "NOT CONFIRMED"; tail -5 /tmp/vs_$ID.1 /tmp/vs_$ID.3 /tmp/vs_$ID.4
